@@ -18,13 +18,13 @@ NEEDS = ["harness", "cli"]
 KINDS = ["complete", "partial", "multiallelic", "insufficient", "exact"]
 RULE = ("L1: histories of 2-200 records over 2-8 samples in 1-3 populations, records drawn from the five site kinds (complete, partially missing "
         "but projectable, multiallelic, insufficient, exactly sufficient) with small state spaces so that identical allele counts recur with "
-        "different totals, with and without projection; cohorts of 90-230 samples whose number of called samples rises and falls from record to record (more than 170 called chromosomes, projected down); histories with failing records (a non-diploid genotype in a selected sample) that the caller reads past; records for which the genotype reader hands over fewer genotypes than samples (release and checked build must answer alike); each step compared with a fresh-reader replica, and the accumulated spectrum with the "
+        "different totals, with and without projection; cohorts of 90-230 samples whose number of called samples rises and falls from record to record (more than 170 called chromosomes, projected down); histories with failing records (a non-diploid genotype in a selected sample) that the caller reads past; four histories of ~30000 records over 200-240 samples with more than 2^14 of distinct configurations (whole == sum of halves); records for which the genotype reader hands over fewer genotypes than samples (release and checked build must answer alike); each step compared with a fresh-reader replica, and the accumulated spectrum with the "
         "sum of the replicas' contributions. C: spectrum(A||B) == spectrum(A)+spectrum(B) and permutation invariance (exact without projection, "
         "1e-9*R with). Non-trivial: history with >= 3 distinct site kinds and a repeated allele-count vector; distinct = digest(history, map, target). "
         "The evidence lists how often each ordered pair of kinds was observed.")
 ASSUMPTIONS = ["replica comparison is bit-exact: the same code on the same numbers must give the same bits",
                "the fresh reader is the real code too; absolute correctness of a single record is C01/C02's job"]
-FLOORS = {"quick": {"evaluations": 2000, "distinct_nontrivial": 800, "counts": {"L1_steps": 60000, "C_relations": 90, "L1_cohort_histories": 100, "L1_histories_with_failing_records": 200, "L1_failing_records_read_past": 200, "C_wide_target_cases": 30, "both_builds_short_records": 150}},
+FLOORS = {"quick": {"evaluations": 2000, "distinct_nontrivial": 800, "counts": {"L1_steps": 60000, "C_relations": 90, "L1_cohort_histories": 100, "L1_histories_with_failing_records": 200, "L1_failing_records_read_past": 200, "C_wide_target_cases": 30, "both_builds_short_records": 150, "L1_long_histories": 4}},
           "thorough": {"evaluations": 150000, "distinct_nontrivial": 50000, "counts": {"L1_steps": 4000000, "C_relations": 2500}}}
 NSHARD = 32
 
@@ -378,6 +378,46 @@ def check_C_value_less(S, p):
     S.case(key=digest([lines, project]), nontrivial=True)
 
 
+def check_L1_long_history(S, p):
+    """One history of about thirty thousand records over a cohort of 200-240 samples next to a tiny, fully called population: tens of thousands
+    of distinct (called, ALT) configurations on one axis, the same configuration again and again on the other. Whatever the reader
+    memoises per configuration is filled, evicted and refilled many times; the whole still equals the sum of its two halves."""
+    rng = rng_for(S.seed, "c11", p["name"], "long")
+    na_, nb_ = rng.randint(200, 240), rng.randint(2, 4)
+    ns = na_ + nb_
+    samples = ["s%d" % j for j in range(ns)]
+    smap = [(s_, "A" if j < na_ else "B") for j, s_ in enumerate(samples)]
+    target = rng.choice([[20, 2 * nb_], [16, 2], [30, 2 * nb_]])
+    nrec = rng.choice([30000, 34000])
+    hist = []
+    for _ in range(nrec):
+        called = rng.randint(12, na_)
+        alt = rng.randint(0, 2 * called)
+        row = ["3"] * na_
+        idx = rng.sample(range(na_), called)
+        twos, rem = divmod(alt, 2)
+        twos = min(twos, called)
+        for k_, j_ in enumerate(idx):
+            row[j_] = "2" if k_ < twos else ("1" if k_ == twos and rem else "0")
+        hist.append("".join(row) + "0" * nb_)
+    counted = sum(1 for r_ in hist if 2 * (na_ - r_[:na_].count("3")) >= target[0])      # the others lack data for the target: no weight
+    cut = rng.randint(nrec // 3, 2 * nrec // 3)
+    base = {"op": "site_hist", "samples": samples, "map": E.map_json(smap), "project": [m + 1 for m in target], "fresh": False, "events": False}
+    res = harness.run_all([dict(base, records=hist), dict(base, records=hist[:cut]), dict(base, records=hist[cut:])], timeout=1200, _audit=False)
+    S.count("L1_long_histories")
+    wit = {"level": "L1", "long_history": {"samples": ns, "records": nrec, "cut": cut, "target": target, "seed_labels": [p["name"], "long"]}}
+    if any("scs" not in r for r in res):
+        S.viol("C11:fail", "[L1 long history, %d records] %s" % (nrec, str([{k: v for k, v in r.items() if k != "scs"} for r in res])[:300]), wit)
+    else:
+        w_, a_, b_ = ([h2f(x) for x in r["scs"]["data"]] for r in res)
+        bad = [(j, x, y + z) for j, (x, y, z) in enumerate(zip(w_, a_, b_)) if not math.isfinite(x) or abs(x - (y + z)) > 1e-9 * nrec]
+        mass = sum(w_)
+        if bad or abs(mass - counted) > 1e-6 * nrec:
+            S.viol("C11:additivity:long", "[L1 %d records, %d + %d samples, target %r] whole != first %d + rest: (flat, whole, sum of parts) %r; mass %r, %d records have enough data" % (
+                nrec, na_, nb_, target, cut, bad[:4], mass, counted), wit)
+    S.case(key=digest(["long", nrec, ns, target, S.seed]), nontrivial=True)
+
+
 def check_L1_short_records(S, p):
     """A genotype reader (any implementation of the library's reader trait, or a BCF record) may hand over FEWER genotypes than it has
     samples. Whatever the site reader makes of such a record, it must not read memory it was not given: the release and the checked
@@ -410,6 +450,8 @@ def shard(S, p):
             S.inconc("C witnesses carry the inputs for manual replay")
         return
     check_L1(S, p)
+    if p["i"] % 8 == 4:
+        check_L1_long_history(S, p)
     check_L1_short_records(S, p)
     check_C(S, p)
     check_C_value_less(S, p)
